@@ -426,6 +426,13 @@ class _Frame:
         self.env.set(st.name, c)
 
     def s_With(self, st):
+        for item in st.items:
+            if item.optional_vars is not None:
+                try:
+                    v = self.ev(item.context_expr)
+                except Uninterpretable:
+                    v = Sink()
+                self.assign(item.optional_vars, v)
         self.run_block(st.body)
 
     def s_Try(self, st):
@@ -1265,7 +1272,18 @@ def _np_tile(a, reps):
     return XArray(out_shape, out)
 
 
+def _np_isin(a, b, **kw):
+    a = XArray.from_nested(a)
+    bb = list(XArray.from_nested(b).data) if not isinstance(b, (set, frozenset)) else list(b)
+    for x in list(a.data) + bb:
+        if isinstance(x, bool) or not isinstance(x, (int, Fraction)):
+            raise XArrayError("np.isin needs concrete data: outside the table grammar")
+    return XArray(a.shape, [any(x == y for y in bb) for x in a.data])
+
+
 _NP_FUNCS = {
+    "isin": _np_isin,
+    "in1d": _np_isin,
     "tile": _np_tile,
     "array": _np_array,
     "asarray": _np_array,
